@@ -39,3 +39,4 @@ chmod 644 *
 # ECPrivateKey carries the curve parameters but no public key, 79 octets: short-form outer length), p256_8pp-opt (parameters
 # and public key, as some Java libraries write it; "-opt": a back end may refuse it) - all three written by a few lines of
 # Python from the scalar of p256_1 / a fixed seed
+# ed25519_8v2np: PKCS#8 with version 1 (v2) but WITHOUT the public key that v2 may carry (aws-lc-rs loads it, ring does not: "np")
